@@ -23,7 +23,11 @@ RULE = ('(a) terrains built to drive the status tree through its hard cases — 
         'midpoints, centre of a seeded subset of shapes) plus larger grids (up to 12x15) for deep trees; cell sizes square / '
         'non-square / descending coordinates; observer_elev in {-2,0,1,2.5}; target_elev in {0,0.5,1}; dtypes '
         'float64/int64/int32; a stream of off-grid observers (nearest lookup incl. exact midpoints) and out-of-range observers '
-        '(ValueError). Non-trivial = at least one hidden cell. (b) the real _insert_into_tree/_delete_from_tree/'
+        '(ValueError); quantifier-audit streams (labelled audit/* in the input distribution): grids 14..20 cells across with '
+        'towers / walls / ridges and every observer class (status trees 5+ levels deep), every integer width int8..uint64 and '
+        'float32 (also holding values that are not float32-representable), observer heights that overflow / are negative '
+        'for the raster dtype, single rows / columns / a single cell, elevations x1e6, x1e-6, -5000, +1e9, cell sizes 1e-3, '
+        '1e5x3e4, 0.1, 0.3x-0.7, observer_elev 1e4 / -100, target_elev negative / 50. Non-trivial = at least one hidden cell. (b) the real _insert_into_tree/_delete_from_tree/'
         '_max_grad_in_status_struct driven directly with operation sequences (ascending/descending/random insert and delete '
         'orders, sliding windows, evens-then-odds, churn; up to 89 live nodes; gradient patterns incl. ties and spikes) with '
         'three queries after every operation whose gradients are taken around the min-gradients of live and of just-deleted '
@@ -84,6 +88,13 @@ ASSUMPTIONS = [
     'NumPy backend; rasters with >= 2 rows and >= 2 columns (resolution divides by size-1), NaN-free, strictly monotone '
     'evenly spaced coordinates; dtypes float64 / int64 / int32 (a float32 raster rounds observer elevation in float32 under NumPy 2)',
     'no two simultaneously active cells have equal squared distance (the model reports DUPKEY; counted, expected 0)',
+    'outside the quantifier, observed on the unchanged code and not checked: a NaN cell is itself reported -1 and hides nothing, a '
+    'NaN observer cell makes every other cell -1; dims other than y/x or a raster without coordinates raise AttributeError; '
+    'float16 rasters raise NotImplementedError; the `res` attribute is ignored (cell sizes come from the coordinates); a '
+    'negative target_elev is treated as 0',
+    'inputs in the class of a recorded wrapper defect (single row / column: key single-row-or-column-all-invisible; observer '
+    'height not exactly addable in the raster dtype: key observer-elev-added-in-raster-dtype) are judged by the oracle only '
+    '(LOS reference with square cells for a single line, float64 observer height) and are not compared with the model',
 ]
 PARTIAL = [
     'the red-black tree refinement is claimed in the form C05_rbtree_refines_status (PropsTree.v): every operation '
@@ -289,9 +300,64 @@ def nearest_coord(coords, x):
     return best
 
 
+KNOWN_ELEV_DTYPE = 'observer-elev-added-in-raster-dtype'
+KNOWN_SINGLE_LINE = 'single-row-or-column-all-invisible'
+
+
+def effective_grid(case):
+    """the elevations the implementation sees: the case's float64 values stored in the raster's dtype"""
+    dt = case.get('dtype', 'float64')
+    if dt == 'float64':
+        return [[float(v) for v in row] for row in case['grid']]
+    a = np.array(case['grid'], dtype='float64').astype(dt).astype('float64')
+    return [[float(v) for v in row] for row in a.tolist()]
+
+
+def impl_observer_elev(case):
+    """observer_elev as run_impl passes it (a Python int for integer rasters when it is integral)"""
+    oe = case['observer_elev']
+    dt = case.get('dtype', 'float64')
+    if (dt.startswith('int') or dt.startswith('uint')) and float(oe) == int(oe):
+        oe = int(oe)
+    return oe
+
+
+def elev_dtype_class(case, vr, vc):
+    """input class of the defect 'observer height added in the raster dtype': evaluating
+    raster.values[vr, vc] + observer_elev with NumPy's rules raises or differs from the float64 sum"""
+    dt = case.get('dtype', 'float64')
+    if dt == 'float64':
+        return False
+    v = np.array(case['grid'], dtype='float64').astype(dt)[vr, vc]
+    oe = impl_observer_elev(case)
+    try:
+        with np.errstate(all='ignore'):
+            got = float(v + oe)
+    except OverflowError:
+        return True
+    return got != float(v) + float(oe)
+
+
+def single_line_class(case):
+    g = case['grid']
+    return (len(g) == 1 or len(g[0]) == 1) and len(g) * len(g[0]) > 1
+
+
+def known_class(case):
+    """the key of the recorded defect whose input class contains this case, or None"""
+    if single_line_class(case):
+        return KNOWN_SINGLE_LINE
+    xs, ys = case['xs'], case['ys']
+    if min(xs) <= case['x'] <= max(xs) and min(ys) <= case['y'] <= max(ys):
+        vc = xs.index(nearest_coord(xs, case['x'])); vr = ys.index(nearest_coord(ys, case['y']))
+        if elev_dtype_class(case, vr, vc):
+            return KNOWN_ELEV_DTYPE
+    return None
+
+
 def oracle_expected(case):
     """expected output of viewshed() for a case dict, or 'ValueError'"""
-    g = [[float(v) for v in row] for row in case['grid']]
+    g = effective_grid(case)
     xs, ys = case['xs'], case['ys']
     x, y = case['x'], case['y']
     if not (min(xs) <= x <= max(xs)) or not (min(ys) <= y <= max(ys)):
@@ -300,8 +366,13 @@ def oracle_expected(case):
     vr = ys.index(nearest_coord(ys, y))
     ve = g[vr][vc] + case['observer_elev']
     tgt = float(case['target_elev']) if case['target_elev'] > 0 else 0.0
-    ew = (xs[-1] - xs[0]) / (len(xs) - 1)
-    ns = (ys[-1] - ys[0]) / (len(ys) - 1)
+    # a single row / column has no spacing of its own: square cells (1.0 for a single cell)
+    ew = (xs[-1] - xs[0]) / (len(xs) - 1) if len(xs) > 1 else None
+    ns = (ys[-1] - ys[0]) / (len(ys) - 1) if len(ys) > 1 else None
+    if ew is None:
+        ew = abs(ns) if ns is not None else 1.0
+    if ns is None:
+        ns = abs(ew)
     return reference(g, vr, vc, ve, tgt, ew, ns)
 
 
@@ -313,13 +384,13 @@ def run_impl(case):
     a = np.array(case['grid'], dtype='float64').astype(case.get('dtype', 'float64'))
     r = xr.DataArray(a, dims=['y', 'x'], coords={'y': np.array(case['ys'], dtype='float64'),
                                                  'x': np.array(case['xs'], dtype='float64')})
-    oe, te = case['observer_elev'], case['target_elev']
-    if case.get('dtype', 'float64').startswith('int') and float(oe) == int(oe):
-        oe = int(oe)
+    oe, te = impl_observer_elev(case), case['target_elev']
     try:
         out = viewshed(r, x=case['x'], y=case['y'], observer_elev=oe, target_elev=te)
     except ValueError as e:
         return 'ValueError'
+    except OverflowError as e:
+        return 'OverflowError'
     return [[float(v) for v in row] for row in out.values.tolist()]
 
 
@@ -349,16 +420,19 @@ def check_oracle(ctx, case, impl):
     exp, blockers = oracle_expected(case)
     if same_grid(impl, exp):
         return True
+    key = known_class(case)
+    if key is not None:
+        ctx.count('known-class/' + key)
     if isinstance(impl, str) or isinstance(exp, str):
         ctx.violation('oracle', 'viewshed: implementation gave %s, the line-of-sight reference %s' % (
-            impl if isinstance(impl, str) else 'a grid', exp if isinstance(exp, str) else 'a grid'), dict(case))
+            impl if isinstance(impl, str) else 'a grid', exp if isinstance(exp, str) else 'a grid'), dict(case), key=key)
         return False
     i, j, u, v = first_diff(impl, exp)
     why = ''
     if (i, j) in blockers:
         why = ' (hidden by nearer cell (%d,%d) whose interpolated gradient %r exceeds the cell\'s)' % blockers[(i, j)]
     ctx.violation('oracle', 'viewshed: cell (%d,%d) is %r but the line-of-sight model gives %r%s' % (i, j, u, v, why),
-                  dict(case, cell=[i, j], got=u, expected=v, implementation=impl, reference=exp))
+                  dict(case, cell=[i, j], got=u, expected=v, implementation=impl, reference=exp), key=key)
     return False
 
 
@@ -370,7 +444,7 @@ def hx(v):
 
 
 def model_line(case):
-    g = case['grid']
+    g = effective_grid(case)
     toks = ['vs', str(len(g)), str(len(g[0]))]
     toks += [hx(v) for row in g for v in row]
     toks += [str(len(case['xs']))] + [hx(v) for v in case['xs']]
@@ -389,6 +463,9 @@ def parse_grid(tokens, rows, cols):
 def compare_model(ctx, pending):
     if ctx.model is None or not pending:
         return
+    # inputs in the class of a recorded defect of the wrapper (single row / column; observer height added in a narrow
+    # raster dtype) are judged by the oracle only: the model describes neither the defect nor its repair
+    pending = [(c, i) for c, i in pending if known_class(c) is None]
     outs = ctx.model.run([model_line(c) for c, _ in pending])
     for (case, impl), mo in zip(pending, outs):
         ctx.traces += 1
@@ -1048,6 +1125,74 @@ def gen_cases(ctx):
         case['grid'] = g
         case['family'] = 'lake'
         yield case
+    # ---- quantifier audit streams ("all terrains ..., all observer cells, observer_elev >= 0 or < 0, target_elev >= 0,
+    # square and non-square cell sizes"): each stream is labelled in the input distribution (audit/...)
+    def tag(case, label):
+        case['audit'] = label
+        return case
+    # (a) large grids (14..20 cells across): status trees 5+ levels deep, towers / walls / ridges, every observer class
+    nbig2 = 18 if quick else 400
+    big_shapes = [(14, 16), (16, 14), (15, 18), (20, 20), (18, 15), (14, 20)]
+    big_fams = ['spike', 'ridge_col', 'ridge_row', 'ridge_diag', 'forest', 'ring', 'checker', 'dec', 'stair']
+    for i in range(nbig2):
+        R, C = big_shapes[i % len(big_shapes)]
+        cells = observer_cells(R, C, False)
+        vr, vc = cells[(i * 2 + i // len(big_shapes)) % len(cells)]
+        yield tag(mk_case(rng, big_fams[i % len(big_fams)], R, C, vr, vc), 'large-14..20')
+    # (b) every integer width and float32 (values that fit; observer heights that stay exact in the raster dtype)
+    nonneg = ['plateau', 'ridge_row', 'ridge_col', 'checker', 'spike', 'forest', 'ring', 'flat']
+    # (each new dtype costs 1.5-3 s of Numba compilation: the quick tier takes the three the overflow cases below need
+    # anyway plus two others chosen by the seed; thorough takes all)
+    all_dt = ['int8', 'int16', 'uint8', 'uint16', 'uint32', 'uint64', 'float32']
+    dts = all_dt if not quick else ['int8', 'uint8', 'uint16'] + rng.sample(['int16', 'uint32', 'uint64'], 1) + ['float32']
+    for dt in dts:
+        for _ in range(2 if quick else 40):
+            R, C = rng.randint(3, 7), rng.randint(3, 7)
+            yield tag(mk_case(rng, rng.choice(nonneg), R, C, rng.randrange(R), rng.randrange(C), oe=rng.choice([0, 1, 2]),
+                              dtype=dt), 'dtype-' + dt)
+    for _ in range(2 if quick else 40):      # float32 raster holding values that are not float32-representable
+        R, C = rng.randint(3, 6), rng.randint(4, 7)
+        case = mk_case(rng, 'flat', R, C, rng.randrange(R), rng.randrange(C), oe=0, te=rng.choice([0, 0.5]), dtype='float32')
+        case['grid'] = [[rng.choice([0.1, 0.1, 0.3, 1234.567]) for _ in range(C)] for _ in range(R)]
+        yield tag(case, 'dtype-float32-inexact')
+    # the observer height is added in the raster's dtype: unsigned + negative height, int8 / uint8 wrap-around
+    for dt, cell, oe in [('uint8', 2, -3), ('uint16', 7, -2), ('int8', 120, 100), ('uint8', 250, 10)] if quick else \
+            [('uint8', 2, -3), ('uint16', 7, -2), ('int8', 120, 100), ('uint8', 250, 10), ('uint32', 0, -1), ('int16', 32000, 1000),
+             ('uint64', 3, -5), ('int8', -120, -100)]:
+        case = mk_case(rng, 'flat', 2, 4, 0, 0, res=(1.0, 1.0), oe=oe, te=0, dtype=dt)
+        case['grid'] = [[cell, 3, 0, 0], [0, 0, 0, 1]]
+        yield tag(case, 'elev-dtype-overflow')
+    # (c) a single row / a single column (and a single cell)
+    for i in range(6 if quick else 60):
+        n = rng.randint(2, 7)
+        R, C = (1, n) if i % 2 == 0 else (n, 1)
+        fam = ['flat', 'spike', 'dec'][i % 3]
+        vr, vc = rng.randrange(R), rng.randrange(C)
+        yield tag(mk_case(rng, fam, R, C, vr, vc, res=rng.choice([(1.0, 1.0), (2.0, 0.5), (-1.0, 3.0)]), oe=rng.choice([1, 2.5]),
+                          dtype='float64'), 'single-line')
+    yield tag(mk_case(rng, 'flat', 1, 1, 0, 0, res=(1.0, 1.0), dtype='float64'), 'single-cell')
+    # (d) magnitudes, (e) cell sizes, (f) observer / target heights
+    for i in range(24 if quick else 480):
+        R, C = rng.randint(3, 7), rng.randint(3, 7)
+        vr, vc = rng.randrange(R), rng.randrange(C)
+        kind = i % 12
+        kw = dict(dtype='float64')
+        scale, shift, label = 1.0, 0.0, ''
+        if kind == 0: scale, label = 1e6, 'values-x1e6'
+        elif kind == 1: scale, label = 1e-6, 'values-x1e-6'
+        elif kind == 2: shift, label = -5000.0, 'values-negative-5000'
+        elif kind == 3: shift, label = 1e9, 'values-plus-1e9'
+        elif kind == 4: kw['res'] = (1e-3, 1e-3); label = 'cell-1e-3'
+        elif kind == 5: kw['res'] = (1e5, 3e4); label = 'cell-1e5x3e4'
+        elif kind == 6: kw['res'] = (0.1, 0.1); label = 'cell-0.1'
+        elif kind == 7: kw['res'] = (0.3, -0.7); label = 'cell-0.3x-0.7'
+        elif kind == 8: kw['oe'] = 1e4; label = 'observer_elev-1e4'
+        elif kind == 9: kw['oe'] = -100; label = 'observer_elev--100'
+        elif kind == 10: kw['te'] = -3; label = 'target_elev-negative'
+        else: kw['te'] = 50; label = 'target_elev-50'
+        case = mk_case(rng, rng.choice(['dec', 'dec', 'ramp', 'stair', 'forest', 'pit']), R, C, vr, vc, **kw)
+        case['grid'] = [[v * scale + shift for v in row] for row in case['grid']]
+        yield tag(case, label)
     # observer lookup and range validation
     nedge = 60 if quick else 400
     for i in range(nedge):
@@ -1074,6 +1219,8 @@ def process(ctx, cases):
         ctx.count('family/%s' % case['family'])
         ctx.count('shape/%s' % ('<=7x7' if R <= 7 and C <= 7 else 'large'))
         ctx.count('dtype/%s' % case['dtype'])
+        if case.get('audit'):
+            ctx.count('audit/%s' % case['audit'])
         ctx.count('result/%s' % ('ValueError' if isinstance(impl, str) else ('some-hidden' if hidden else 'all-visible')))
         check_oracle(ctx, case, impl)
         vpending.append((case, impl))
